@@ -10,6 +10,7 @@ package main
 import (
 	"fmt"
 	"reflect"
+	"strconv"
 	"strings"
 	"unsafe"
 
@@ -901,8 +902,33 @@ func c04Run(c *engine.Ctx, in []byte, args map[string]string) {
 	c.Observe(engine.Hash64([]byte(out)))
 }
 
+// c04Many: one declared and one undeclared name with n occurrences each: Uses must count them all.
+// input = n in decimal
+func c04Many(c *engine.Ctx, in []byte, args map[string]string) {
+	n, _ := strconv.Atoi(string(in))
+	src := "var a;" + strings.Repeat("a;b;", n)
+	ast, err := jsParseCopy([]byte(src), js.Options{})
+	if err != nil {
+		c.Fail("valid-rejected", fmt.Sprintf("\"var a;\" + \"a;b;\"×%d is rejected: %s", n, firstLine(err)))
+		return
+	}
+	for _, v := range ast.BlockStmt.Scope.Declared {
+		if string(v.Data) == "a" && int(v.Uses) != n+1 {
+			c.Fail("uses-count-wraps", fmt.Sprintf("\"var a;\" + \"a;b;\"×%d: the declared a is printed %d times but has Uses=%d", n, n+1, v.Uses))
+			return
+		}
+	}
+	for _, v := range ast.BlockStmt.Scope.Undeclared {
+		if string(v.Data) == "b" && int(v.Uses) != n {
+			c.Fail("uses-count-wraps", fmt.Sprintf("\"var a;\" + \"a;b;\"×%d: the undeclared b is printed %d times but has Uses=%d", n, n, v.Uses))
+			return
+		}
+	}
+}
+
 func c04Setup(c *engine.Ctx) {
 	c.Register(&engine.Space{Name: "scope", Run: c04Run, NoMinimise: true})
+	c.Register(&engine.Space{Name: "scope-many", Run: c04Many, NoMinimise: true})
 }
 
 // enumeration of skeletons with exactly n nodes
@@ -961,6 +987,13 @@ func enumSkeletons(forms []skForm, names []string, n int, funcLevel bool, f func
 func c04Work(c *engine.Ctx) {
 	sp := c.SpaceByName("scope")
 	k := 0
+	for _, n := range []int{1000, 65534, 65535, 65536, 70000} {
+		k++
+		if c.Mine(k) {
+			c.Exec(c.SpaceByName("scope-many"), []byte(strconv.Itoa(n)), nil)
+			c.Count("exec", 1)
+		}
+	}
 	emit := func(prog []*sk) {
 		k++
 		if !c.Mine(k) {
